@@ -320,6 +320,8 @@ func (s *ScriptIface) VarlinkDispatch(ctx context.Context, c varlink.Call, metho
 	if inv.ParamErr == "" && json.Unmarshal(raw, &sp) == nil && raw != nil && string(raw) != "null" {
 		inv.HasScript = true
 		inv.Conn, inv.ID = sp.Conn, sp.ID
+	} else {
+		sp = ScriptParams{} // (a failed Unmarshal may have filled the script partially; the model treats it as "no script")
 	}
 	s.Log.mu.Lock()
 	s.Log.inv = append(s.Log.inv, inv)
